@@ -127,6 +127,13 @@ CHECKS["C17"] = dict(
   note="Remote and protoc_builtin plugins, --clean, multi-module workspaces not covered; n=4 uses the 127 monotone labellings.",
   design="3/C17")
 
+CHECKS["C10"] = dict(
+  level="exploration", engine="enum",
+  technique="bounded-exhaustive enumeration of module-level import digraphs x node kinds x config versions x targets on the real workspace builder with an in-process registry, against a reference reachability model",
+  text="All digraphs on <=3 module nodes (thorough: also all 4096 on 4 nodes with restricted kind vectors) incl. cycles and diamonds x node kinds {local unnamed, local named, remote pinned, local + pinned} x {v1 buf.work.yaml + buf.yaml/buf.lock, v2 buf.yaml + buf.lock} x targets {workspace, module dir, proto-file ref, --path file, --path subdir}, two-commit variants, shared-directory layouts (includes/excludes, v1beta1 roots), duplicate-path and missing-import plants: the module set contains every node once (local beats pinned, newest commit wins), ModuleDeps = reachable minus self with IsDirect iff first hop, a module on a cycle and `dep graph` over a cycle error, ModuleSetToDAG / `buf dep graph` nodes and edges exact, image files = targets plus import closure with the right owner, `buf ls-files --include-imports` = image file list, duplicate and missing paths are the specific errors (CLI exit 100).",
+  note="Remote modules cannot go through the CLI offline (CLI families use local kinds only); n=4 with restricted kind vectors; equal create times are C02's business.",
+  design="3/C10")
+
 NOT_YET = {}
 
 def main():
